@@ -19,7 +19,7 @@
    changes, all other elements and their order stay"). *)
 From Coq Require Import List ZArith Bool Arith Lia.
 From SC Require Import Base.Res Base.PyList Inst.Heap Inst.ClassTable Inst.Model Inst.Canon Inst.Abs
-  Inst.SpecHelpers Inst.ElemProofs Inst.RefineProofs Inst.CopyProofs Inst.ElemRefine Inst.ElemRefine2 Inst.ElemRefine3 Inst.ElemRefine4.
+  Inst.SpecHelpers Inst.ElemProofs Inst.RefineProofs Inst.CopyProofs Inst.ElemRefine Inst.ElemRefine2 Inst.ElemRefine3 Inst.ElemRefine4 Inst.ElemRefine5.
 Import ListNotations.
 Open Scope nat_scope.
 
@@ -358,6 +358,59 @@ Proof.
   exact (without_item_dict_inplace_refines ct h0 l a c d k sp s lc kvs tk tv Hl Hc Ha Hd Hfz Hni Hty Hfld Hlc Hkvs Hflat Hsh key Hk).
 Qed.
 
+(* PROVED (C06_set_with_item_refines_partial, C06_set_without_item_refines_partial):
+   with_<item>(e) and without_<item>(e), in place, on a Set attribute holding a set of scalars
+   of every size and content (receiver guard as above); the abstraction of a set is its
+   canonically ordered element list, so the statement says: set.add is the ordered insertion
+   unless an equal element is present (True == 1), set.remove drops exactly the equal element
+   (ValueError when there is none); a non-conforming new element is a ValueError.
+   GUARD set_key_free (add only): no element of the set that differs from the new element has
+   the same canonical sort key (atom_key: a convention of the abstraction; keys of distinct
+   scalars collide only for integers / strings codes beyond 10^5), so that the canonical
+   order of the result does not depend on the insertion order. *)
+Theorem C06_set_with_item_refines_partial :
+  forall ct h0 l a c d k sp s lc xs ity,
+  nth_error (heap s) l = Some (OInst c d) -> lookup_cls ct c = Some k -> lookup_attr k a = Some sp ->
+  NoDup (map fst d) -> c_frozen k = false -> no_inval k ->
+  a_ty sp = TSet ity -> ty_depth ity < FUEL ->
+  assoc a d = Some (VRef lc) -> nth_error (heap s) lc = Some (OSet xs) -> forallb nonref xs = true ->
+  flat_fields (heap s) d -> (forall b w, In (b, w) d -> b <> a -> w <> VRef lc) ->
+  forall v,
+  a_prepare_item sp = None -> spec_of_ty_strict ity = None ->
+  vscalar v = true -> set_key_free ct xs v = true ->
+  let h := mkh [v] true true VMissing false None None [] None in
+  let ah := mkah [abs0 v] true true AMissing false None None [] None in
+  match run_helper ct l (HWithItem a) h s with
+  | (Ok r, s') => r = VRef l /\
+                  spec_helper ct h0 (absv (heap s) (VRef l)) (SWithItem a) ah = SOk (absv (heap s') (VRef l))
+  | (Err e, s') => spec_helper ct h0 (absv (heap s) (VRef l)) (SWithItem a) ah = SErr e /\ heap s' = heap s
+  end.
+Proof.
+  intros ct h0 l a c d k sp s lc xs ity Hl Hc Ha Hd Hfz Hni Hty Hdep Hfld Hlc Hxs Hflat Hsh v Hp Hs Hv Hkf.
+  exact (with_item_set_inplace_refines ct h0 l a c d k sp s lc xs ity Hl Hc Ha Hd Hfz Hni Hty Hdep Hfld Hlc Hxs Hflat Hsh v Hp Hs Hv Hkf).
+Qed.
+
+Theorem C06_set_without_item_refines_partial :
+  forall ct h0 l a c d k sp s lc xs ity,
+  nth_error (heap s) l = Some (OInst c d) -> lookup_cls ct c = Some k -> lookup_attr k a = Some sp ->
+  NoDup (map fst d) -> c_frozen k = false -> no_inval k ->
+  a_ty sp = TSet ity ->
+  assoc a d = Some (VRef lc) -> nth_error (heap s) lc = Some (OSet xs) -> forallb nonref xs = true ->
+  flat_fields (heap s) d -> (forall b w, In (b, w) d -> b <> a -> w <> VRef lc) ->
+  forall voi,
+  nonref voi = true ->
+  let h := mkh [voi] true true VMissing false None None [] None in
+  let ah := mkah [abs0 voi] true true AMissing false None None [] None in
+  match run_helper ct l (HWithoutItem a) h s with
+  | (Ok r, s') => r = VRef l /\
+                  spec_helper ct h0 (absv (heap s) (VRef l)) (SWithoutItem a) ah = SOk (absv (heap s') (VRef l))
+  | (Err e, s') => spec_helper ct h0 (absv (heap s) (VRef l)) (SWithoutItem a) ah = SErr e /\ heap s' = heap s
+  end.
+Proof.
+  intros ct h0 l a c d k sp s lc xs ity Hl Hc Ha Hd Hfz Hni Hty Hfld Hlc Hxs Hflat Hsh voi Hv.
+  exact (without_item_set_inplace_refines ct h0 l a c d k sp s lc xs ity Hl Hc Ha Hd Hfz Hni Hty Hfld Hlc Hxs Hflat Hsh voi Hv).
+Qed.
+
 (* non-vacuity: falsy elements, equal elements at several positions, negative index *)
 Example C06_examples :
   let ct := @nil cls in
@@ -390,4 +443,6 @@ Print Assumptions C06_list_transform_item_refines_partial.
 Print Assumptions C06_list_update_item_refines_partial.
 Print Assumptions C06_dict_with_item_refines_partial.
 Print Assumptions C06_dict_without_item_refines_partial.
+Print Assumptions C06_set_with_item_refines_partial.
+Print Assumptions C06_set_without_item_refines_partial.
 Print Assumptions C06_examples.
